@@ -45,6 +45,11 @@ type c34Core struct {
 	setup   func(t testing.TB, seed int64) (run []func(), cleanup func())
 }
 
+// c34Seeds: cores whose whole exploration is repeated with that many seeds (default 1). The race detector keeps only four
+// earlier accesses per memory word and evicts at random when they are full, so a race that a single schedule of a core
+// exposes can be missed by one pass; a core with such a narrow window (and few schedules) is explored more than once.
+var c34Seeds = map[string]int{c34CoreRerequest: 3}
+
 func c34Pair(t testing.TB, seed int64, routinesA, routinesB int) (*vnet, *vnode, *vnode) {
 	a := vnodeSpec{Name: "a", Networks: "10.0.0.1/24", Udp: "192.0.2.1:4242", Routines: routinesA, Overrides: m{
 		"static_host_map": m{"10.0.0.2": []string{"192.0.2.2:4242"}}}}
@@ -62,6 +67,51 @@ func c34Capture(net *vnet, act func()) []vpkt {
 	net.inflight = nil
 	return out
 }
+
+// c34RelayNet is vRelayNet (a and b reach each other only through the relay r) with a chosen number of routines per node.
+func c34RelayNet(t testing.TB, seed int64, routinesA, routinesR, routinesB int) (*vnet, *vnode, *vnode, *vnode) {
+	a := vnodeSpec{Name: "a", Networks: "10.0.0.1/24", Udp: "192.0.2.1:4242", Routines: routinesA, Overrides: m{"relay": m{"use_relays": true}}}
+	r := vnodeSpec{Name: "r", Networks: "10.0.0.9/24", Udp: "192.0.2.9:4242", Routines: routinesR, Overrides: m{"relay": m{"am_relay": true}}}
+	b := vnodeSpec{Name: "b", Networks: "10.0.0.2/24", Udp: "192.0.2.2:4242", Routines: routinesB, Overrides: m{"relay": m{"use_relays": true}}}
+	net := vNewNet(t, seed, a, r, b)
+	na, nr, nb := net.node("a"), net.node("r"), net.node("b")
+	na.injectLighthouseAddr(nr.vpnIP, nr.udp)
+	na.injectRelays(nb.vpnIP, []netip.Addr{nr.vpnIP})
+	nr.injectLighthouseAddr(nb.vpnIP, nb.udp)
+	nr.injectLighthouseAddr(na.vpnIP, na.udp)
+	nb.injectLighthouseAddr(nr.vpnIP, nr.udp)
+	nb.injectRelays(na.vpnIP, []netip.Addr{nr.vpnIP})
+	return net, na, nr, nb
+}
+
+// c34RelayFor returns the relay entry that the tunnel to `via` holds for `peer` (nil when there is none). Only called
+// from the driver (setup / after the join), never from a scheduler thread.
+func c34RelayFor(n *vnode, via, peer netip.Addr) *Relay {
+	hi := n.f.hostMap.QueryVpnAddr(via)
+	if hi == nil {
+		return nil
+	}
+	r, ok := hi.relayState.QueryRelayForByIp(peer)
+	if !ok {
+		return nil
+	}
+	return r
+}
+
+// c34To filters the datagrams addressed to one underlay address.
+func c34To(pkts []vpkt, to netip.AddrPort) []vpkt {
+	var out []vpkt
+	for _, p := range pkts {
+		if p.To == to {
+			out = append(out, p)
+		}
+	}
+	return out
+}
+
+// c34Count holds per-core outcome counters of the worker process (written by the driver goroutine only: in setup and in
+// the cleanup that runs after all threads have joined). They travel to the parent in c34Result.Counters.
+var c34Count = map[string]int64{}
 
 func c34Cores() []c34Core {
 	data := func(n, to *vnode, tag string) []byte {
@@ -280,24 +330,132 @@ func c34Cores() []c34Core {
 				func() { b.deliverOn(0, a.udp, p1[0].Data) },
 			}, net.close
 		}},
+		{c34CoreForward, 3, func(t testing.TB, seed int64) ([]func(), func()) {
+			// Relay state TRANSITION vs relay READERS on the relay node. r forwards between a and b (both legs Established).
+			// Two rx routines of r forward one relayed packet each (a->b and b->a): each resolves the target leg's *Relay
+			// through the hostmap and reads its fields after every lock has been dropped. Concurrently r tears down its last
+			// tunnel to a, which moves the leg "b for a" Established -> Disestablished.
+			net, a, r, b := c34RelayNet(t, seed, 1, 2, 1)
+			if !net.establish(a, b, "s1") || !net.establish(b, a, "s2") {
+				t.Fatalf("establish through the relay")
+			}
+			net.flushFIFO(50)
+			ab := c34To(c34Capture(net, func() { a.tunSend(data(a, b, "AB")) }), r.udp)
+			ba := c34To(c34Capture(net, func() { b.tunSend(data(b, a, "BA")) }), r.udp)
+			hiA := r.f.hostMap.QueryVpnAddr(a.vpnIP)
+			pre := c34RelayFor(r, b.vpnIP, a.vpnIP)
+			if len(ab) != 1 || len(ba) != 1 || hiA == nil || pre == nil || pre.State != Established || pre.Type != ForwardingType {
+				t.Fatalf("relay core setup: ab=%v ba=%v hiA=%v leg=%+v", ab, ba, hiA != nil, pre)
+			}
+			observe := func() {
+				if post := c34RelayFor(r, b.vpnIP, a.vpnIP); post != nil && post.State == Disestablished {
+					c34Count["relay_state_transitions"]++
+				}
+				out := c34Relayed(r.takeOut())
+				// a relayed datagram towards b proves that the forwarder found the leg and read State == Established
+				if len(c34To(out, b.udp)) > 0 {
+					c34Count["forward_read_leg_established"]++
+				} else {
+					c34Count["forward_refused"]++
+				}
+				if len(c34To(out, a.udp)) > 0 {
+					c34Count["reverse_forwarded"]++
+				} else {
+					c34Count["reverse_refused"]++
+				}
+				net.close()
+			}
+			return []func(){
+				func() { r.deliverOn(0, a.udp, ab[0].Data) },
+				func() { r.f.closeTunnel(hiA) },
+				func() { r.deliverOn(1, b.udp, ba[0].Data) },
+			}, observe
+		}},
+		{c34CoreRerequest, 2, func(t testing.TB, seed int64) ([]func(), func()) {
+			// Relay state TRANSITIONS vs relay READERS on an endpoint. a dropped its tunnel to b locally, so the leg "r for b"
+			// on a is Disestablished. a's handshake timer starts a new handshake to b: StartRelays reads the leg it got from
+			// the hostmap and re-requests it (Disestablished -> Requested). Concurrently an rx routine of a receives b's own
+			// new handshake through that leg, which marks it Established (sendHandshakeResponse).
+			net, a, r, b := c34RelayNet(t, seed, 2, 1, 1)
+			if !net.establish(a, b, "s1") || !net.establish(b, a, "s2") {
+				t.Fatalf("establish through the relay")
+			}
+			net.flushFIFO(50)
+			a.f.closeTunnel(a.f.hostMap.QueryVpnAddr(b.vpnIP))
+			a.injectRelays(b.vpnIP, []netip.Addr{r.vpnIP}) // closeTunnel forgot what the lighthouse said about b; this is its next answer
+			pre := c34RelayFor(a, r.vpnIP, b.vpnIP)
+			if pre == nil || pre.State != Disestablished || pre.Type != TerminalType {
+				t.Fatalf("rerequest core setup: leg=%+v", pre)
+			}
+			toR := c34To(c34Capture(net, func() { b.hm.StartHandshake(a.vpnIP, nil); b.settle() }), r.udp)
+			for i := 0; i < 3 && len(toR) == 0; i++ {
+				toR = c34To(c34Capture(net, func() { vtime.Advance(100 * vtime.Millisecond); b.hsTick() }), r.udp)
+			}
+			var fwd []vpkt
+			for _, p := range toR {
+				fwd = append(fwd, c34Relayed(c34To(c34Capture(net, func() { r.deliver(b.udp, p.Data) }), a.udp))...)
+			}
+			// pending handshake a->b; its first attempt becomes due try_interval plus one wheel tick later
+			c34Capture(net, func() { a.tunSend(data(a, b, "AGAIN")) })
+			vtime.Advance(200 * vtime.Millisecond)
+			if len(fwd) == 0 || a.hm.queryVpnIp(b.vpnIP) == nil {
+				t.Fatalf("rerequest core setup: toR=%v fwd=%v pending=%v", toR, fwd, a.pendingAddrs())
+			}
+			observe := func() {
+				if post := c34RelayFor(a, r.vpnIP, b.vpnIP); post != nil && post.State != Disestablished {
+					c34Count["relay_state_transitions"]++
+					c34Count[fmt.Sprintf("final_leg_state_%d", post.State)]++
+				}
+				if a.f.hostMap.QueryVpnAddr(b.vpnIP) != nil {
+					c34Count["handshake_via_relay_accepted"]++
+				}
+				outA := a.takeOut()
+				if len(c34To(outA, r.udp)) >= 2 {
+					c34Count["rerequest_and_response_sent"]++
+				}
+				net.close()
+			}
+			return []func(){
+				func() { a.hm.NextOutboundHandshakeTimerTick(vtime.Now()) },
+				func() { a.deliverOn(1, r.udp, fwd[0].Data) },
+			}, observe
+		}},
 	}
+}
+
+const (
+	c34CoreForward   = "relay-forward-vs-peer-tunnel-delete"
+	c34CoreRerequest = "relay-rerequest-vs-handshake-via-relay"
+)
+
+// c34Relayed keeps the datagrams whose (unauthenticated) header says "relayed message".
+func c34Relayed(pkts []vpkt) []vpkt {
+	var out []vpkt
+	for _, p := range pkts {
+		var h header.H
+		if h.Parse(p.Data) == nil && h.Type == header.Message && h.Subtype == header.MessageRelay {
+			out = append(out, p)
+		}
+	}
+	return out
 }
 
 // c34TrafficChecks counts doTrafficCheck calls of the current execution (written by one thread, read after the join).
 var c34TrafficChecks int
 
 type c34Result struct {
-	Core          string        `json:"core"`
-	Bound         int           `json:"bound"`
-	Executions    int64         `json:"executions"`
-	ChoicePoints  int64         `json:"choice_points"`
-	Deadlocks     int64         `json:"deadlocks"`
-	Horizon       int64         `json:"horizon"`
-	Nondet        int64         `json:"nondet"`
-	Complete      bool          `json:"complete"`
-	ByPreemptions map[int]int64 `json:"by_preemptions"`
-	FirstDeadlock []int16       `json:"first_deadlock"`
-	Sample        []int8        `json:"sample_thread_order"`
+	Core          string           `json:"core"`
+	Bound         int              `json:"bound"`
+	Executions    int64            `json:"executions"`
+	ChoicePoints  int64            `json:"choice_points"`
+	Deadlocks     int64            `json:"deadlocks"`
+	Horizon       int64            `json:"horizon"`
+	Nondet        int64            `json:"nondet"`
+	Complete      bool             `json:"complete"`
+	ByPreemptions map[int]int64    `json:"by_preemptions"`
+	FirstDeadlock []int16          `json:"first_deadlock"`
+	Sample        []int8           `json:"sample_thread_order"`
+	Counters      map[string]int64 `json:"counters"`
 }
 
 // TestVerifC34Worker runs one core in this process (spawned by TestVerifC34 with the race log configured).
@@ -317,25 +475,43 @@ func TestVerifC34Worker(t *testing.T) {
 		startT := realtime.Now()
 		deadline := func() bool { return realtime.Since(startT).Seconds() > budget }
 		var cleanup func()
-		res := sched.Explore(sched.Options{Bound: bound, MaxSteps: 50000, Stop: deadline}, func() {
-			run, cl := core.setup(t, 1)
-			cleanup = cl
-			for _, f := range run {
-				sched.Go(f)
-			}
-		}, func(x *sched.Exec) {
-			if cleanup != nil {
-				cleanup()
-			}
-			if strings.Contains(name, "traffic-check") || strings.Contains(name, "cert-check") {
-				if c34TrafficChecks == 0 && !x.Aborted {
-					t.Fatalf("vacuous core %s: no traffic check was executed", name)
+		out := c34Result{Core: name, Bound: bound, Complete: true, ByPreemptions: map[int]int64{}, Counters: c34Count}
+		// One exploration per seed (1 unless the core says otherwise). The seed changes key material and tunnel indexes but
+		// not the schedule tree; see c34Seeds.
+		for seed := int64(1); seed <= int64(max(c34Seeds[core.name], 1)); seed++ {
+			res := sched.Explore(sched.Options{Bound: bound, MaxSteps: 50000, Stop: deadline}, func() {
+				run, cl := core.setup(t, seed)
+				cleanup = cl
+				for _, f := range run {
+					sched.Go(f)
 				}
+			}, func(x *sched.Exec) {
+				if cleanup != nil {
+					cleanup()
+				}
+				if strings.Contains(name, "traffic-check") || strings.Contains(name, "cert-check") {
+					if c34TrafficChecks == 0 && !x.Aborted {
+						t.Fatalf("vacuous core %s: no traffic check was executed", name)
+					}
+				}
+				c34TrafficChecks = 0
+			})
+			out.Executions += res.Executions
+			out.ChoicePoints += res.ChoicePoints
+			out.Deadlocks += res.Deadlocks
+			out.Horizon += res.Horizon
+			out.Nondet += res.Nondeterministic
+			out.Complete = out.Complete && res.Complete
+			for k, v := range res.ByPreemptions {
+				out.ByPreemptions[k] += v
 			}
-			c34TrafficChecks = 0
-		})
-		out := c34Result{Core: name, Bound: bound, Executions: res.Executions, ChoicePoints: res.ChoicePoints, Deadlocks: res.Deadlocks,
-			Horizon: res.Horizon, Nondet: res.Nondeterministic, Complete: res.Complete, ByPreemptions: res.ByPreemptions, FirstDeadlock: res.FirstDeadlock}
+			if out.FirstDeadlock == nil {
+				out.FirstDeadlock = res.FirstDeadlock
+			}
+			if !res.Complete {
+				break
+			}
+		}
 		b, _ := json.Marshal(out)
 		if err := os.WriteFile(os.Getenv("VERIF_C34_OUT"), b, 0o644); err != nil {
 			t.Fatal(err)
@@ -500,6 +676,35 @@ func TestVerifC34(t *testing.T) {
 		sort.Strings(cs)
 		c.Violation("data race: "+sig, map[string]any{"cores": cs, "report": r.text})
 	}
+	// Vacuity guards of the relay cores: in every schedule a real state transition of a published relay leg took place,
+	// and the concurrent readers both found the leg in the old state (and acted on it) and missed it.
+	relayReaderSchedules, relayTransitions := int64(0), int64(0)
+	for i, core := range cores {
+		o := outs[i]
+		if len(o.res.Counters) > 0 {
+			c.Set("outcomes_"+core.name, o.res.Counters)
+		}
+		if o.res.Deadlocks > 0 || o.res.Horizon > 0 {
+			continue
+		}
+		cnt := o.res.Counters
+		switch core.name {
+		case c34CoreForward:
+			c.Require(cnt["relay_state_transitions"] == o.res.Executions, "core %s: the leg went Established -> Disestablished in %d of %d schedules", core.name, cnt["relay_state_transitions"], o.res.Executions)
+			c.Require(cnt["forward_read_leg_established"] > 0 && cnt["forward_refused"] > 0, "core %s: forwarder outcomes %v (need both: forwarded on the old state, refused after the transition)", core.name, cnt)
+			c.Require(cnt["reverse_forwarded"] > 0 && cnt["reverse_refused"] > 0, "core %s: reverse forwarder outcomes %v", core.name, cnt)
+			relayReaderSchedules += cnt["forward_read_leg_established"]
+			relayTransitions += cnt["relay_state_transitions"]
+		case c34CoreRerequest:
+			c.Require(cnt["relay_state_transitions"] == o.res.Executions, "core %s: the leg left Disestablished in %d of %d schedules", core.name, cnt["relay_state_transitions"], o.res.Executions)
+			c.Require(cnt["handshake_via_relay_accepted"] == o.res.Executions, "core %s: the handshake through the leg was accepted in %d of %d schedules", core.name, cnt["handshake_via_relay_accepted"], o.res.Executions)
+			c.Require(cnt["rerequest_and_response_sent"] == o.res.Executions, "core %s: re-request and handshake response were both sent in %d of %d schedules", core.name, cnt["rerequest_and_response_sent"], o.res.Executions)
+			relayReaderSchedules += cnt["rerequest_and_response_sent"]
+			relayTransitions += cnt["relay_state_transitions"]
+		}
+	}
+	c.Set("relay_leg_state_transitions_under_concurrent_readers", relayTransitions)
+	c.Set("relay_leg_reads_acted_on", relayReaderSchedules)
 	c.Set("states", execs)
 	c.Set("transitions", points)
 	c.Set("traces_validated_against_impl", execs)
